@@ -12,6 +12,8 @@ for name in sorted(os.listdir(os.path.join(HERE, "seeded"))):
     ok = v.get("demo_without_change") == 0 and v.get("demo_with_change") == 1 and v.get("tests_ok")
     caught = ",".join(v.get("caught_by") or []) or "-"
     status = "effective" if ok else ("neutral on the repaired tree" if v.get("demo_with_change") == 0 else "unverified")
+    if m.get("disputed"):
+        status = "not a violation of the statement (see meta.json: disputed)"
     first = ""
     own = name.split("-")[0]
     if own in (v.get("checks") or {}):
@@ -22,7 +24,8 @@ with open(os.path.join(HERE, "seeded", "CATALOGUE.md"), "w") as f:
             "(demo 0 -> 1, baseline test result unchanged, quick check of the property exits 1).  `ported` = the patch had to be re-based after a `fix:` commit "
             "(`patch.orig.diff` is what the sub-agent delivered).\n\n")
     eff = [r for r in rows if r[1] == "effective"]
-    f.write(f"{len(rows)} changes, {len(eff)} effective on the current tree, {sum(1 for r in eff if r[0].split('-')[0] in r[2].split(','))} of them caught by the quick check of their own property.\n\n")
+    disputed = [r for r in rows if r[1].startswith("not a violation")]
+    f.write(f"{len(rows)} changes, {len(eff)} effective on the current tree, {sum(1 for r in eff if r[0].split('-')[0] in r[2].split(','))} of them caught by the quick check of their own property; {len(disputed)} judged not to violate the statement as written.\n\n")
     f.write("| id | status | caught by (quick) | what was changed | what it needs | first violation reported | |\n|---|---|---|---|---|---|---|\n")
     for r in rows:
         f.write("| " + " | ".join(r) + " |\n")
